@@ -15,12 +15,13 @@ import (
 	"github.com/prometheus/client_golang/prometheus/promhttp"
 	dto "github.com/prometheus/client_model/go"
 
+	"verifharness/internal/cli"
 	"verifharness/internal/emit"
 )
 
 // C12: HTTP instrumentation records exactly what happened and is transparent.
 
-func init() { register("C12", runC12) }
+func main() { cli.Main("C12", runC12) }
 
 // ---- fake underlying writer with net/http's status semantics and partial accepts ----
 type fwBase struct {
@@ -311,7 +312,7 @@ func (f rtFunc) RoundTrip(r *http.Request) (*http.Response, error) { return f(r)
 
 type ctxKey struct{}
 
-func runC12(c *Ctx) error {
+func runC12(c *cli.Ctx) error {
 	r := emit.NewRng(c.Seed)
 	// ---- stream codes: every status code in a window + random large ones
 	w := emit.NewWriter(c.Out, "C12", "codes")
